@@ -102,6 +102,8 @@ func init() {
 				{World: "book", Quick: b(2, 2, 2), OneEnv: true, MenuFilter: c14Filter, NoDedupe: true, OnTransition: withRestarts},
 				// tiny orders (10^13 pip): the 53-bit price key of an order moves on a partial fill
 				{World: "booktiny", Quick: b(3, 3, 2), OneEnv: true},
+				// the small-remainder boundary of an order whose two volumes differ by a factor of two
+				{World: "bookrem", Quick: b(2, 2, 2), OneEnv: true},
 			}
 		} else {
 			runs = []WorldRun{
@@ -116,6 +118,7 @@ func init() {
 				{World: "book", Thorough: b(3, 2, 3), OneEnv: true, MenuFilter: c14Filter, NoDedupe: true, OnTransition: withRestarts},
 				{World: "bookdisk", Thorough: b(3, 2, 2), OneEnv: true, MenuFilter: c14CoreOnly, NoDedupe: true, OnTransition: withRestarts},
 				{World: "booktiny", Thorough: b(4, 3, 2), OneEnv: true},
+				{World: "bookrem", Thorough: b(3, 3, 3)},
 			}
 		}
 		RunExplore(c, runs, mons, baseAssumptions...)
